@@ -164,6 +164,9 @@ def build_element(spec, log, label):
         return lena.context.UpdateContext("a.c", "{{s}}_x")
     if kind == "mkfn":
         return lena.output.MakeFilename("out_{{s}}")
+    if kind == "esplit":
+        # "If seqs is empty, Split acts as an empty Sequence and yields all values it receives"
+        return lena.core.Split([], bufsize=spec[1])
     if kind == "split":
         b, copy_buf, branches = spec[1], spec[2], spec[3]
         seqs = [build_branch(br, log, (label, "b", bi)) for bi, br in enumerate(branches)]
@@ -183,7 +186,7 @@ def top_label(label):
     return label
 
 
-ONE_TO_ONE = ("call", "var", "print", "context", "upd", "mkfn")
+ONE_TO_ONE = ("call", "var", "print", "context", "upd", "mkfn", "esplit")
 
 
 def is_one_to_one(spec):
@@ -214,7 +217,7 @@ def kind_sig(spec):
         return "Split"
     return {"call": "callable", "var": "Variable", "filter": "Filter", "count": "Count",
             "runif": "RunIf", "print": "Print", "context": "Context", "upd": "UpdateContext",
-            "mkfn": "MakeFilename"}[kind]
+            "mkfn": "MakeFilename", "esplit": "Split([])"}[kind]
 
 
 def retention(spec):
